@@ -141,14 +141,12 @@ vharness!(c27_q_vec_same_type, 7, {
     crate::cover!(n == 0);
 });
 
-// different types of identical layout (in-place path)
-vharness!(c27_t_vec_same_layout, 7, {
+// different types of identical layout (in-place path), with and without spare capacity
+fn same_layout(extra: usize) {
     reset();
     let n = sym::usize();
     sym::assume(n <= MAXN);
     let fail_at = sym::usize();
-    let extra = sym::usize();
-    sym::assume(extra <= 2);
     let v = mk_vec(n, extra);
     let mut calls = 0usize;
     let r: Result<Vec<U1>, ()> = fallible_map_vec(v, |t: T1| {
@@ -171,7 +169,9 @@ vharness!(c27_t_vec_same_layout, 7, {
     check_counts(n, fail_at, failed);
     crate::cover!(failed && fail_at > 0 && fail_at + 1 < n);
     crate::cover!(!failed && n > 0);
-});
+}
+vharness!(c27_q_vec_same_layout_exact_capacity, 7, { same_layout(0) });
+vharness!(c27_q_vec_same_layout_spare_capacity, 7, { same_layout(2) });
 
 // different layout (collect path)
 vharness!(c27_q_vec_other_layout, 7, {
